@@ -64,8 +64,9 @@ RULE = ("nested list/tuple/dict values (depth <= 3) over real temp files and dir
         "truthy and falsy, i.e. holding only foreign files), falsy non-file leaves (0, '', (), b'', None) next to them; same "
         "object repeated, equal file-sets, different classes on one path, counter-like names, "
         "1-3 output fields, dict keys strs (direct mode: also file-sets), optional patched mount table, optional "
-        "pre-existing entries in the target directory; run through copyfile_workflow directly and through real "
-        "workflows; non-trivial = at least two file leaves sharing a name from different sources, or a file-set "
+        "pre-existing entries in the target directory; run through copyfile_workflow directly, through real "
+        "workflows returning the values, and through real workflows whose outputs are those of SPLIT and combined "
+        "nodes over the values (Any and list[Any] typed); non-trivial = at least two file leaves sharing a name from different sources, or a file-set "
         "occurring in two places")
 
 NAMES = ["f.txt", "f.txt", "f.txt", "g.txt", "f", "f (1).txt", ".hid", "a.b.c", "x.tar.gz", "d", "d.x", "f (1)",
@@ -555,6 +556,41 @@ def run_workflow(sb, values, table):
     return [getattr(res.outputs, n) for n in names]
 
 
+def run_split_workflow(sb, items, table):
+    """A real workflow whose outputs are the outputs of SPLIT nodes over `items` (one generated value tree per
+    element): the un-combined state array returned loosely typed (Any) and as list[Any], and the output of a
+    combined node.  Every output must come back as the list of the items, shapes intact."""
+    from pydra.compose import python, workflow
+    from pydra.engine.submitter import Submitter
+    from pydra.utils.mount_identifier import MountIndentifier as M
+    from pydra.engine.workflow import Workflow
+    import contextlib
+    Workflow.clear_cache()
+    ns = {"ty": ty, "workflow": workflow}
+    exec("def Pick(x: ty.Any) -> ty.Any:\n    return x\n", ns)
+    ns["Pick"] = python.define(outputs=["out"])(ns["Pick"])
+    exec("def SplitWf(items: ty.Any) -> tuple[ty.Any, list[ty.Any], ty.Any]:\n"
+         "    a = workflow.add(Pick().split(x=items), name='a')\n"
+         "    b = workflow.add(Pick().split(x=items).combine('x'), name='b')\n"
+         "    return a.out, a.out, b.out\n", ns)
+    names = ["o0", "o1", "o2"]
+    wf = workflow.define(outputs=names)(ns["SplitWf"])
+    task = wf(items=list(items))
+    cm = M.patch_table(table) if table is not None else contextlib.nullcontext()
+    with cm:
+        with Submitter(worker="debug", cache_root=sb.root / "cache") as sub:
+            try:
+                res = sub(task, raise_errors=True)
+            finally:
+                cands = [p for p in (sb.root / "cache").glob("workflow-*") if p.is_dir()]
+                if cands:
+                    sb.dest = cands[0]
+    if res.errored:
+        raise RuntimeError("workflow errored: %r" % (res.errors,))
+    sb.dest = Path(res.cache_dir)
+    return [getattr(res.outputs, n) for n in names]
+
+
 BOOKKEEPING = ("_job.pklz", "_result.pklz", "_task.pklz", "_error.pklz", "_return_values.pklz")
 
 
@@ -566,6 +602,8 @@ def one_case(ctx, rng, base, mode, spec=None):
         if spec is None:
             pool = gen_leaf_pool(rng, sb, rng.choice([2, 3, 4, 5, 6]))
             nf = rng.choice([1, 1, 2, 3])
+            if mode == "split":
+                nf = rng.choice([1, 2, 3, 4])   # elements of the split
             values = [gen_value(rng, pool, rng.choice([0, 1, 2, 3]), file_keys=(mode == "direct")) for _ in range(nf)]
             table = gen_table(rng, sb)
             pre = []
@@ -589,13 +627,18 @@ def one_case(ctx, rng, base, mode, spec=None):
         else:
             sb.dest_canon = "/T/WF"
             hide = ()
+        items = values
+        if mode == "split":
+            # what the workflow must return: each of its three outputs is the list of the items
+            values = [list(items), list(items), list(items)]
         leaves = [x for v in values for x in leaves_of(v)]
         c0 = sb.snapshot()
         enc_in = [enc_value(sb, v) for v in values]   # before dest is known (workflow mode): sources only, fine
-        desc_in = [describe(sb, v) for v in values]
+        desc_in = [describe(sb, v) for v in (items if mode == "split" else values)]
         err = None
         try:
-            outs = run_direct(sb, values, table) if mode == "direct" else run_workflow(sb, values, table)
+            outs = (run_direct(sb, values, table) if mode == "direct" else
+                    run_split_workflow(sb, items, table) if mode == "split" else run_workflow(sb, values, table))
         except Exception as e:  # noqa: BLE001 — every failure of the implementation is an observation
             err = exc_kind(e)
             errtxt = "%s: %s" % (type(e).__name__, str(e)[:300].replace(str(sb.root), "/T"))
@@ -677,7 +720,7 @@ def run(ctx):
         for i in range(n_wf):
             if i >= floor_wf and time.time() - t0 > limit * 0.3:
                 break
-            t, m = one_case(ctx, rng, base, "workflow")
+            t, m = one_case(ctx, rng, base, "split" if i % 3 == 1 else "workflow")
             cases.append(t)
             metas.append(m)
         for i in range(n_direct):
@@ -690,7 +733,7 @@ def run(ctx):
         shutil.rmtree(base, ignore_errors=True)
     res = coqio.run_cases(ctx.scratch, "c33", IMPORTS, "case_t", cases, {"tie": "tie_ok", "spec": "spec_ok"},
                           extra=COQ_C33, shard=150)
-    dist = {"direct": 0, "workflow": 0, "ok": 0, "error_EExists": 0, "error_other": 0, "with_mount_table": 0,
+    dist = {"direct": 0, "workflow": 0, "split": 0, "ok": 0, "error_EExists": 0, "error_other": 0, "with_mount_table": 0,
             "leaves_0": 0, "leaves_1_3": 0, "leaves_4_plus": 0, "fields_1": 0, "fields_2_plus": 0}
     seen = set()
     nontrivial = 0
